@@ -819,8 +819,10 @@ with enc_param (fuel : nat) (p : param) (kv : list (name * value)) (s : estate) 
           match e_req s with
           | None => Err ERej
           | Some rq =>
-            do _ <- guard (rqpos + len <=? blen rq) ERej;
-            emplace_bytes s (slice rqpos len rq) None
+            (* since the fix commit: a negative REQUEST-BYTE-POS counts from the end of the request (-1 = its last byte) *)
+            let pos := if rqpos <? 0 then blen rq + rqpos else rqpos in
+            do _ <- guard ((0 <=? pos) && (pos + len <=? blen rq)) ERej;
+            emplace_bytes s (slice pos len rq) None
           end
         | KNrc dc vs =>
           do _ <- guard (is_none pv) ERej;
@@ -1048,7 +1050,8 @@ Definition const_prefix (ps : list param) (rq : bytes) : res bytes :=
      | p :: r =>
        let take_it := match pkind_of p with
                       | KCoded _ _ | KPhysConst _ _ => true
-                      | KMatchReq rqpos len => rqpos + len <=? blen rq   (* since the fix commit: the whole mirrored range *)
+                      | KMatchReq rqpos len => (0 <=? rqpos) && (rqpos + len <=? blen rq)
+                        (* since the fix commits: the whole mirrored range, counted from the start of the request *)
                       | _ => false
                       end in
        if take_it then do s1 <- enc_param (fuel_of ps) p [] s; go r s1 else Ok (e_msg s)
